@@ -717,11 +717,13 @@ def canonical_key(files):
 def _remove_entity(m, kind, name):
     _, n, units, comps, errs = m
     if kind == "u":
-        return M(n, [u for u in units if u[1] != name], comps, errs)
+        return M(n, [u for u in units if u[1] != name], comps, [e for e in errs if e != ("eu", name)])
 
     def strip(cs):
         return tuple(C(c[1], c[2], c[3], strip(c[4])) for c in cs if c[1] != name)
-    return M(n, units, strip(comps), errs)
+    left = strip(comps)
+    names = {c[1] for c in _flatten_comps(left)}
+    return M(n, units, left, [e for e in errs if e[0] != "ec" or e[1] in names])
 
 
 def single_faults(files, origin=ORIGIN):
